@@ -1,5 +1,4 @@
-import ParryModel.Field
-import ParryModel.C13.Model
+import ParryModel.C13.Lemmas
 /-!
 # C13 property theorems: mass properties.
 -/
@@ -17,5 +16,262 @@ theorem triangle_unit_inertia_about_a (t : Triangle2 K) :
   simp only [triUnitInertia, V2.sub, V2.normSq, V2.dot, fieldNum_lit]
   have h6 : ((mkRat 6 1 : ℚ) : K) = 6 := by norm_num
   rw [h6]; ring
+
+theorem triangle_area_eq (hs : LawfulSqrt sq) (t : Triangle2 K) :
+    letI := fieldNum K sq
+    triArea t = |(t.b.sub t.a).perp (t.c.sub t.a)| / 2 := by
+  have hl : ((mkRat 1 4 : ℚ) : K) = 1 / 4 := by norm_num
+  simp only [triArea, V2.norm, fieldNum_sqrt, fieldNum_nmax, fieldNum_lit, hl]
+  rw [heron_sorted]
+  have hA := hs.sq_mul (@V2.normSq K (fieldNum K sq) (@V2.sub K (fieldNum K sq) t.b t.a)) (normSq_nonneg sq _)
+  have hB := hs.sq_mul (@V2.normSq K (fieldNum K sq) (@V2.sub K (fieldNum K sq) t.c t.b)) (normSq_nonneg sq _)
+  have hC := hs.sq_mul (@V2.normSq K (fieldNum K sq) (@V2.sub K (fieldNum K sq) t.a t.c)) (normSq_nonneg sq _)
+  rw [hA, hB, hC]
+  set p := @V2.perp K (fieldNum K sq) (@V2.sub K (fieldNum K sq) t.b t.a) (@V2.sub K (fieldNum K sq) t.c t.a) with hp
+  have key : 2 * (@V2.normSq K (fieldNum K sq) (@V2.sub K (fieldNum K sq) t.b t.a)) * (@V2.normSq K (fieldNum K sq) (@V2.sub K (fieldNum K sq) t.c t.b))
+      + 2 * (@V2.normSq K (fieldNum K sq) (@V2.sub K (fieldNum K sq) t.c t.b)) * (@V2.normSq K (fieldNum K sq) (@V2.sub K (fieldNum K sq) t.a t.c))
+      + 2 * (@V2.normSq K (fieldNum K sq) (@V2.sub K (fieldNum K sq) t.a t.c)) * (@V2.normSq K (fieldNum K sq) (@V2.sub K (fieldNum K sq) t.b t.a))
+      - (@V2.normSq K (fieldNum K sq) (@V2.sub K (fieldNum K sq) t.b t.a)) * (@V2.normSq K (fieldNum K sq) (@V2.sub K (fieldNum K sq) t.b t.a))
+      - (@V2.normSq K (fieldNum K sq) (@V2.sub K (fieldNum K sq) t.c t.b)) * (@V2.normSq K (fieldNum K sq) (@V2.sub K (fieldNum K sq) t.c t.b))
+      - (@V2.normSq K (fieldNum K sq) (@V2.sub K (fieldNum K sq) t.a t.c)) * (@V2.normSq K (fieldNum K sq) (@V2.sub K (fieldNum K sq) t.a t.c))
+      = (2 * |p|) * (2 * |p|) := by
+    have : (2 * |p|) * (2 * |p|) = 4 * (p * p) := by rw [show (2 * |p|) * (2 * |p|) = 4 * (|p| * |p|) by ring, abs_mul_abs_self]
+    rw [this, hp]
+    simp only [V2.normSq, V2.dot, V2.sub, V2.perp]
+    ring
+  rw [key]
+  have hnn : (0:K) ≤ 2 * |p| * (2 * |p|) := by positivity
+  rw [max_eq_left hnn]
+  have h1 := hs.sq_mul _ hnn
+  have h2 := hs.nonneg _ hnn
+  have h3 : sq (2 * |p| * (2 * |p|)) = 2 * |p| := by
+    have h4 : (0:K) ≤ 2 * |p| := by positivity
+    nlinarith [mul_self_eq_mul_self_iff.1 h1]
+  rw [h3]; ring
+
+theorem add_moments (hs : LawfulSqrt sq) (a b : MP2 K) (ha : 0 ≤ a.invMass) (hb : 0 ≤ b.invMass) :
+    letI := fieldNum K sq
+    massOf (a.add b) = massOf a + massOf b ∧
+    (a.add b).com.x * massOf (a.add b) = a.com.x * massOf a + b.com.x * massOf b ∧
+    (a.add b).com.y * massOf (a.add b) = a.com.y * massOf a + b.com.y * massOf b ∧
+    ∀ p : V2 K, momentAbout (a.add b) p = momentAbout a p + momentAbout b p := by
+  unfold MP2.add
+  split_ifs with hza hzb
+  · rw [isZero_iff] at hza
+    obtain ⟨h1, h2, h3, h4⟩ := hza
+    simp [massOf, momentAbout, inertiaOf, h1, h2, h3, h4]
+  · rw [isZero_iff] at hzb
+    obtain ⟨h1, h2, h3, h4⟩ := hzb
+    simp [massOf, momentAbout, inertiaOf, h1, h2, h3, h4]
+  have hm1 : 0 ≤ a.invMass⁻¹ := inv_nonneg.2 ha
+  have hm2 : 0 ≤ b.invMass⁻¹ := inv_nonneg.2 hb
+  simp only [shifted_spec, inv_spec, V2.sub, V2.add, V2.smul, massOf, momentAbout, inertiaOf, fieldNum_sqrt]
+  set m1 := a.invMass⁻¹ with hm1d
+  set m2 := b.invMass⁻¹ with hm2d
+  set I1 := (a.invI * a.invI)⁻¹ with hI1
+  set I2 := (b.invI * b.invI)⁻¹ with hI2
+  have hI1n : 0 ≤ I1 := inv_nonneg.2 (mul_self_nonneg _)
+  have hI2n : 0 ≤ I2 := inv_nonneg.2 (mul_self_nonneg _)
+  set cx := (a.com.x * m1 + b.com.x * m2) * (m1 + m2)⁻¹ with hcx
+  set cy := (a.com.y * m1 + b.com.y * m2) * (m1 + m2)⁻¹ with hcy
+  have hIn : 0 ≤ I1 + m1 * ((cx - a.com.x) ^ 2 + (cy - a.com.y) ^ 2) + (I2 + m2 * ((cx - b.com.x) ^ 2 + (cy - b.com.y) ^ 2)) := by
+    positivity
+  rw [sqrt_roundtrip sq hs _ hIn, inv_inv]
+  rcases eq_or_ne (m1 + m2) 0 with h0 | h0
+  · have e1 : m1 = 0 := by linarith
+    have e2 : m2 = 0 := by linarith
+    simp [e1, e2]
+  · refine ⟨rfl, ?_, ?_, ?_⟩
+    · simp only [hcx]; field_simp
+    · simp only [hcy]; field_simp
+    · intro p
+      have := add_core m1 m2 a.com.x a.com.y b.com.x b.com.y p.x p.y h0
+      simp only at this
+      linear_combination this
+
+theorem triangle_center_eq (t : Triangle2 K) :
+    letI := fieldNum K sq
+    triCenter t = ⟨(t.a.x + t.b.x + t.c.x) / 3, (t.a.y + t.b.y + t.c.y) / 3⟩ := by
+  have h3 : ((mkRat 3 1 : ℚ) : K) = 3 := by norm_num
+  simp only [triCenter, V2.add, V2.smul, fieldNum_lit, h3]
+  congr 1 <;> ring
+
+theorem triangle_centroid_inertia (t : Triangle2 K) :
+    letI := fieldNum K sq
+    triUnitInertia t - ((triCenter t).sub t.a).normSq = sumSqSides t / 36 := by
+  have h3 : ((mkRat 3 1 : ℚ) : K) = 3 := by norm_num
+  have h6 : ((mkRat 6 1 : ℚ) : K) = 6 := by norm_num
+  simp only [triUnitInertia, triCenter, V2.add, V2.smul, V2.sub, V2.normSq, V2.dot, fieldNum_lit, h3, h6, sumSqSides]
+  ring
+
+theorem from_triangle_spec (hs : LawfulSqrt sq) (ρ : K) (hρ : 0 < ρ) (t : Triangle2 K) (hnd : cross t ≠ 0) :
+    letI := fieldNum K sq
+    massOf (fromTriangle ρ t) = ρ * (|cross t| / 2) ∧
+    (fromTriangle ρ t).com = ⟨(t.a.x + t.b.x + t.c.x) / 3, (t.a.y + t.b.y + t.c.y) / 3⟩ ∧
+    inertiaOf (fromTriangle ρ t) = ρ * (|cross t| / 2) * (sumSqSides t / 36) := by
+  have harea := triangle_area_eq sq hs t
+  have hcr : @V2.perp K (fieldNum K sq) (@V2.sub K (fieldNum K sq) t.b t.a) (@V2.sub K (fieldNum K sq) t.c t.a) = cross t := by
+    simp only [V2.perp, V2.sub, cross]
+  rw [hcr] at harea
+  have hpos : 0 < |cross t| / 2 := by positivity
+  unfold fromTriangle
+  simp only [fieldNum_neq', harea]
+  rw [if_neg (by simpa using hpos.ne')]
+  simp only [MP2.new, massOf, inertiaOf, inv_spec, inv_inv, fieldNum_sqrt]
+  refine ⟨by ring, triangle_center_eq sq t, ?_⟩
+  rw [triangle_centroid_inertia]
+  have hI : 0 ≤ sumSqSides t / 36 * (|cross t| / 2) * ρ := by
+    have := sumSqSides_pos t hnd
+    positivity
+  rw [sqrt_roundtrip sq hs _ hI]; ring
+
+theorem triangle_area_nonneg (hs : LawfulSqrt sq) (t : Triangle2 K) : 0 ≤ @triArea K (fieldNum K sq) t := by
+  rw [triangle_area_eq sq hs]; positivity
+
+/-- observables of the corrected `from_triangle`, degenerate triangles included (their mass and inertia are `0`) -/
+theorem from_triangle_obs (hs : LawfulSqrt sq) (ρ : K) (hρ : 0 ≤ ρ) (t : Triangle2 K) :
+    letI := fieldNum K sq
+    massOf (fromTriangle ρ t) = triArea t * ρ ∧
+    (fromTriangle ρ t).com = triCenter t ∧
+    inertiaOf (fromTriangle ρ t) = sumSqSides t / 36 * triArea t * ρ := by
+  have hA := triangle_area_nonneg sq hs t
+  unfold fromTriangle
+  simp only [fieldNum_neq']
+  by_cases h0 : @triArea K (fieldNum K sq) t = 0
+  · simp [h0, MP2.new, massOf, inertiaOf, inv_spec, fieldNum_sqrt, sqrt_zero sq hs]
+  · rw [if_neg (by simpa using h0)]
+    simp only [MP2.new, massOf, inertiaOf, inv_spec, inv_inv, fieldNum_sqrt, triangle_centroid_inertia]
+    refine ⟨trivial, trivial, ?_⟩
+    have hI : 0 ≤ sumSqSides t / 36 * @triArea K (fieldNum K sq) t * ρ := by
+      have := sumSqSides_nonneg t
+      positivity
+    rw [sqrt_roundtrip sq hs _ hI]
+
+theorem from_triangle_pinned_overestimates (hs : LawfulSqrt sq) (ρ : K) (hρ : 0 ≤ ρ) (t : Triangle2 K) :
+    letI := fieldNum K sq
+    inertiaOf (fromTrianglePinned ρ t) =
+      inertiaOf (fromTriangle ρ t) + massOf (fromTriangle ρ t) * ((triCenter t).sub t.a).normSq := by
+  obtain ⟨h1, _, h3⟩ := from_triangle_obs sq hs ρ hρ t
+  rw [h1, h3]
+  have hA := triangle_area_nonneg sq hs t
+  unfold fromTrianglePinned
+  simp only [fieldNum_neq']
+  by_cases h0 : @triArea K (fieldNum K sq) t = 0
+  · simp [h0, MP2.new, inertiaOf, inv_spec, fieldNum_sqrt, sqrt_zero sq hs]
+  · rw [if_neg (by simpa using h0)]
+    simp only [MP2.new, inertiaOf, inv_spec, fieldNum_sqrt]
+    have e := triangle_centroid_inertia sq t
+    have hn := normSq_nonneg sq (@V2.sub K (fieldNum K sq) (@triCenter K (fieldNum K sq) t) t.a)
+    have hu : 0 ≤ @triUnitInertia K (fieldNum K sq) t := by
+      have := sumSqSides_nonneg t; linarith [e]
+    have hI : 0 ≤ @triUnitInertia K (fieldNum K sq) t * @triArea K (fieldNum K sq) t * ρ := by positivity
+    rw [sqrt_roundtrip sq hs _ hI]
+    linear_combination (@triArea K (fieldNum K sq) t * ρ) * e
+
+/-- **`Sum`** : the moments of `MassProperties::sum` are the sums of the members' moments (zero-mass members included). -/
+theorem sum_moments (hs : LawfulSqrt sq) (ps : List (MP2 K)) (h : ∀ a ∈ ps, 0 ≤ a.invMass) :
+    letI := fieldNum K sq
+    massOf (MP2.sum ps) = totMass ps ∧
+    (MP2.sum ps).com.x * massOf (MP2.sum ps) = totFx ps ∧
+    (MP2.sum ps).com.y * massOf (MP2.sum ps) = totFy ps ∧
+    ∀ p : V2 K, momentAbout (MP2.sum ps) p = totMoment ps p := by
+  obtain ⟨f1, f2, f3⟩ := foldl_sumAcc sq ps (0, ⟨0, 0⟩)
+  have hM := totMass_nonneg ps h
+  simp only [zero_add] at f1 f2 f3
+  unfold MP2.sum
+  simp only [foldl_shifted, zero_add, V2.zero, f1, massOf, momentAbout, inertiaOf, inv_spec, inv_inv, fieldNum_sqrt]
+  rcases hM.eq_or_lt with h0 | hpos
+  · -- massless family
+    obtain ⟨g1, g2⟩ := massless_family ps h h0.symm
+    rw [if_neg (by rw [← h0]; exact lt_irrefl _)]
+    rw [sqrt_roundtrip sq hs _ (totMoment_nonneg ps h _)]
+    refine ⟨trivial, by rw [← h0, g1]; ring, by rw [← h0, g2]; ring, ?_⟩
+    intro p
+    rw [list_parallel_axis ps p _, g1, g2, ← h0]; ring
+  · rw [if_pos hpos]
+    rw [sqrt_roundtrip sq hs _ (totMoment_nonneg ps h _)]
+    simp only [V2.sdiv, f2, f3]
+    refine ⟨trivial, by field_simp, by field_simp, ?_⟩
+    intro p
+    rw [list_parallel_axis_com ps p ⟨totFx ps / totMass ps, totFy ps / totMass ps⟩ (by field_simp) (by field_simp)]
+
+/-- moments of the family of (corrected) `from_triangle` parts of a triangle list -/
+theorem parts_tot (hs : LawfulSqrt sq) (ρ : K) (hρ : 0 ≤ ρ) (ts : List (Triangle2 K)) (c : V2 K) :
+    letI := fieldNum K sq
+    totMass (ts.map (fromTriangle ρ)) = (ts.map triArea).sum * ρ ∧
+    totFx (ts.map (fromTriangle ρ)) = (ts.map fun t => (triCenter t).x * triArea t).sum * ρ ∧
+    totFy (ts.map (fromTriangle ρ)) = (ts.map fun t => (triCenter t).y * triArea t).sum * ρ ∧
+    totMoment (ts.map (fromTriangle ρ)) c = (ts.map (meshTerm c)).sum * ρ := by
+  induction ts with
+  | nil => simp [totMass, totFx, totFy, totMoment]
+  | cons a l ih =>
+    obtain ⟨i1, i2, i3, i4⟩ := ih
+    obtain ⟨o1, o2, o3⟩ := from_triangle_obs sq hs ρ hρ a
+    simp only [totMass, totFx, totFy, totMoment, List.map_cons, List.sum_cons] at i1 i2 i3 i4 ⊢
+    rw [i1, i2, i3, i4]
+    simp only [momentAbout, o1, o2, o3, meshTerm]
+    have e := triangle_centroid_inertia sq a
+    simp only [V2.sub, V2.normSq, V2.dot] at e ⊢
+    refine ⟨by ring, by ring, by ring, ?_⟩
+    linear_combination (-(@triArea K (fieldNum K sq) a) * ρ) * e
+
+theorem parts_invMass_nonneg (hs : LawfulSqrt sq) (ρ : K) (hρ : 0 ≤ ρ) (ts : List (Triangle2 K)) :
+    ∀ a ∈ ts.map (@fromTriangle K (fieldNum K sq) ρ), 0 ≤ a.invMass := by
+  intro a ha
+  simp only [List.mem_map] at ha
+  obtain ⟨t, _, rfl⟩ := ha
+  have := (from_triangle_obs sq hs ρ hρ t).1
+  have hA := triangle_area_nonneg sq hs t
+  have h2 : 0 ≤ massOf (@fromTriangle K (fieldNum K sq) ρ t) := by rw [this]; positivity
+  exact inv_nonneg.1 h2
+
+/-- **2-D TriMesh = Σ of its triangles**: the (corrected) `from_trimesh` has exactly the moments of the family of
+`from_triangle` parts, about every point `p` (degenerate triangles and zero total area included). -/
+theorem trimesh_moments (hs : LawfulSqrt sq) (ρ : K) (hρ : 0 ≤ ρ) (ts : List (Triangle2 K)) :
+    letI := fieldNum K sq
+    massOf (fromTrimeshTris ρ ts) = totMass (ts.map (fromTriangle ρ)) ∧
+    (fromTrimeshTris ρ ts).com.x * massOf (fromTrimeshTris ρ ts) = totFx (ts.map (fromTriangle ρ)) ∧
+    (fromTrimeshTris ρ ts).com.y * massOf (fromTrimeshTris ρ ts) = totFy (ts.map (fromTriangle ρ)) ∧
+    ∀ p : V2 K, momentAbout (fromTrimeshTris ρ ts) p = totMoment (ts.map (fromTriangle ρ)) p := by
+  obtain ⟨f1, f2, f3⟩ := foldl_meshAcc sq ts (⟨0, 0⟩, 0)
+  simp only [zero_add] at f1 f2 f3
+  have hAn : 0 ≤ (ts.map (@triArea K (fieldNum K sq))).sum := by
+    apply List.sum_nonneg; intro x hx; simp only [List.mem_map] at hx
+    obtain ⟨b, _, rfl⟩ := hx; exact triangle_area_nonneg sq hs b
+  have hpn := parts_invMass_nonneg sq hs ρ hρ ts
+  unfold fromTrimeshTris meshAreaCom
+  simp only [V2.zero, f1, fieldNum_neq']
+  by_cases h0 : (ts.map (@triArea K (fieldNum K sq))).sum = 0
+  · simp only [h0, decide_true, if_true]
+    obtain ⟨p1, p2, p3, _⟩ := parts_tot sq hs ρ hρ ts ⟨0, 0⟩
+    have hm0 : totMass (ts.map (@fromTriangle K (fieldNum K sq) ρ)) = 0 := by rw [p1, h0]; ring
+    obtain ⟨g1, g2⟩ := massless_family _ hpn hm0
+    simp only [MP2.new, massOf, momentAbout, inertiaOf, inv_spec, fieldNum_sqrt, sqrt_zero sq hs, inv_zero, mul_zero, zero_mul, add_zero]
+    have hJ : ∀ p : V2 K, (ts.map (@meshTerm K (fieldNum K sq) p)).sum = 0 := fun p =>
+      sum_weighted_zero ts (@triArea K (fieldNum K sq)) _ (fun t _ => triangle_area_nonneg sq hs t) h0
+    refine ⟨hm0.symm, g1.symm, g2.symm, ?_⟩
+    intro p
+    rw [(parts_tot sq hs ρ hρ ts p).2.2.2, hJ p]; ring
+  · have hApos : 0 < (ts.map (@triArea K (fieldNum K sq))).sum := lt_of_le_of_ne hAn (Ne.symm h0)
+    simp only [h0, decide_false, if_false, Bool.false_eq_true]
+    simp only [foldl_add_map, zero_add, V2.sdiv, f1, f2, f3]
+    set A := (ts.map (@triArea K (fieldNum K sq))).sum with hA
+    set Gx := (ts.map fun t => (@triCenter K (fieldNum K sq) t).x * @triArea K (fieldNum K sq) t).sum with hGx
+    set Gy := (ts.map fun t => (@triCenter K (fieldNum K sq) t).y * @triArea K (fieldNum K sq) t).sum with hGy
+    obtain ⟨p1, p2, p3, p4⟩ := parts_tot sq hs ρ hρ ts ⟨Gx / A, Gy / A⟩
+    rw [← hA] at p1; rw [← hGx] at p2; rw [← hGy] at p3
+    have hJn : 0 ≤ (ts.map (@meshTerm K (fieldNum K sq) ⟨Gx / A, Gy / A⟩)).sum * ρ := by
+      rw [← p4]; exact totMoment_nonneg _ hpn _
+    simp only [MP2.new, massOf, momentAbout, inertiaOf, inv_spec, inv_inv, fieldNum_sqrt]
+    rw [sqrt_roundtrip sq hs _ hJn]
+    refine ⟨p1.symm, ?_, ?_, ?_⟩
+    · rw [p2]; field_simp
+    · rw [p3]; field_simp
+    · intro p
+      have hx : (⟨Gx / A, Gy / A⟩ : V2 K).x * totMass (ts.map (@fromTriangle K (fieldNum K sq) ρ)) = totFx (ts.map (@fromTriangle K (fieldNum K sq) ρ)) := by
+        rw [p1, p2]; field_simp
+      have hy : (⟨Gx / A, Gy / A⟩ : V2 K).y * totMass (ts.map (@fromTriangle K (fieldNum K sq) ρ)) = totFy (ts.map (@fromTriangle K (fieldNum K sq) ρ)) := by
+        rw [p1, p3]; field_simp
+      rw [list_parallel_axis_com _ p ⟨Gx / A, Gy / A⟩ hx hy, p4, p1]
 
 end C13
